@@ -12,6 +12,17 @@ voteproofs, honest and conflicting, sequentially and from goroutines; every vote
 Ballotbox.Voteproof() is logged with its sign facts, expels, result, majority, threshold and the
 verdicts of Voteproof.IsValid and isaac.IsValidVoteproofWithSuffrage; BallotboxTrace.tla checks
 (i)-(iv) of DESIGN.md section 4 C04 for each of them against the ballots Vote accepted.
+Held records and the ticker: a count may hold a record back (INIT draw while expels are not agreed,
+voterecords.countAfter); the box's ticker (Ballotbox.start -> countHoldeds) counts it later, without
+the count lock, the last-point update and the clean cycle of countVoterecords. Ballotbox.tla has the
+action Tick (abstract guard: the box is still voting on the record's stage point; transcriptions
+"impl" = filter of unfinishedVoterecords + the check of voterecords.count, "coarse" = the caller's
+filter alone) and the property EmitNew (statement: "for a stage point it was voting on"); TLC checks
+the transcription and turns the counterexamples of the coarse guard into forced schedules (hold,
+close the height through SetLastPoint / late ACCEPT ballots, run the ticker). The recorder runs the
+real ticker (Start with a 50us interval, holds expired, Stop) as the scripted op Tick and next to the
+concurrent threads; BallotboxTrace.tla checks for every voteproof of every call kind that its stage
+point was new with respect to a last point the box had when it was emitted (C04-point-not-new).
 """
 import os
 import re
@@ -92,7 +103,17 @@ def judge(ctx, events, res, source):
             vp = bad[0] if bad else None
         else:
             vp = None
-        if vp is None:
+        if vp is not None and cls == "point-not-new":
+            pre = events[line - 2]["last"] if line >= 2 and "last" in events[line - 2] else {"h": -1, "r": 0, "s": 0, "maj": False}
+            rel = "zero" if pre["s"] not in (1, 3) else "%s-%s;%s;%s" % (
+                {1: "INIT", 3: "ACCEPT"}[pre["s"]], "majority" if pre["maj"] else "draw",
+                "same-height" if pre["h"] == vp["h"] else ("lower-height" if pre["h"] < vp["h"] else "higher-height"),
+                "same-round" if pre["r"] == vp["r"] else ("earlier-round" if pre["r"] < vp["r"] else "later-round"))
+            key = "point-not-new;emitted-by=%s;%s-%s;last=%s" % (ev["a"], {1: "INIT", 3: "ACCEPT"}.get(vp["s"], "?"), vp["res"], rel)
+            what = ("the box emitted the %s %s voteproof of (h%d r%d s%d) from its own records in %s although its last point was "
+                    "already (h%d r%d s%d majority=%s): it was not voting on that stage point any more" % (
+                        vp["kind"], vp["res"], vp["h"], vp["r"], vp["s"], ev["a"], pre["h"], pre["r"], pre["s"], pre["maj"]))
+        elif vp is None:
             key = cls
             what = "%s at event %d (%s) info=%s" % (cls, line, shared.brief(ev), info)
         else:
@@ -110,8 +131,101 @@ def judge(ctx, events, res, source):
                       {"source": source, "class": cls, "line": line, "reset": reset, "calls": calls, "voteproof": vp, "event": ev})
 
 
-def vote(node, h, r, s, f, ex, sc=False):
-    return {"op": "Vote", "b": {"node": node, "h": h, "r": r, "s": s, "sc": sc, "f": f, "ex": sorted(ex), "evp": {"name": ""}}}
+def vote(node, h, r, s, f, ex, sc=False, evp=None):
+    return {"op": "Vote", "b": {"node": node, "h": h, "r": r, "s": s, "sc": sc, "f": f, "ex": sorted(ex),
+                                "evp": evp or {"name": ""}}}
+
+
+def steps_to_history(steps, n=2, tag="", hold="never"):
+    """a behaviour of Ballotbox.tla as a script: Vote, SetLast and Tick steps (counts and clean cycles are the box's own)"""
+    ops = []
+    for s in steps:
+        if s["a"] == "Vote":
+            ops.append(vote(s["node"], s["h"], s["r"], s["s"], s["f"], s["ex"], s["sc"]))
+        elif s["a"] == "SetLast":
+            ops.append({"op": "SetLast", "h": s["h"], "r": s["r"], "s": s["s"], "maj": s["maj"], "sc": s["sc"]})
+        elif s["a"] == "Tick":
+            ops.append({"op": "Tick"})
+    return {"n": n, "local": "n0", "t10": 670, "hold": hold, "ops": ops, "tag": tag}
+
+
+def held_patterns(n, t10):
+    """ways to make the INIT record of a point a draw while the voters disagree on one expel (the draw the box holds
+    back): a voters carry the expel of the last node, b voters do not; the local node n0 is in either group"""
+    names = ["n%d" % i for i in range(n)]
+    x = names[-1]
+    out = []
+    for local_knows in (True, False):
+        found = None
+        for tot in range(2, n + 1):
+            for a in range(1, tot):
+                b = tot - a
+                if a > n - 1:
+                    continue
+                sfs = [{"f": "A", "ex": [x]}] * a + [{"f": "A", "ex": []}] * b
+                if tally(n, req(n, t10), sfs)[0] != "DRAW":
+                    continue
+                # who: the expelled node can only be among those who do not carry its expel
+                others = names[1:-1]
+                if local_knows:
+                    know = ["n0"] + others[:a - 1]
+                    rest = [v for v in others if v not in know] + [x]
+                    dont = rest[:b]
+                else:
+                    know = others[:a]
+                    rest = ["n0"] + [v for v in others if v not in know] + [x]
+                    dont = rest[:b]
+                if len(know) != a or len(dont) != b:
+                    continue
+                found = (know, dont, x)
+                break
+            if found:
+                break
+        if found:
+            out.append(found)
+    return out
+
+
+def hold_grid(quick):
+    """forced schedules around a held record: the INIT record of (1, r=1) is made a held draw, then the last point is
+    moved (every last point of a small range through SetLastPoint; the ACCEPT majority of the earlier round through late
+    ACCEPT ballots or through the voteproof an INIT ballot of the next height carries; not at all), then the count paths
+    that do not start from a ballot run: the ticker, MissingNodes, Count"""
+    hs = []
+    sizes = (3, 4, 5) if quick else (3, 4, 5, 6, 7)
+    ths = (670,) if quick else (670, 600, 750, 1000)
+    P = (1, 1, 1)
+    missing = {"op": "Missing", "h": P[0], "r": P[1], "s": P[2]}
+    tails = ([{"op": "Tick"}, missing, {"op": "Count"}, {"op": "Tick"}],     # the ticker meets the record first
+             [missing, {"op": "Count"}, {"op": "Tick"}])                     # ... or MissingNodes' count does
+    for n in sizes:
+        names = ["n%d" % i for i in range(n)]
+        for t10 in ths:
+            for pi, (know, dont, x) in enumerate(held_patterns(n, t10)):
+                votes = []
+                for i in range(max(len(know), len(dont))):
+                    if i < len(know):
+                        votes.append(vote(know[i], P[0], P[1], P[2], "A", [x]))
+                    if i < len(dont):
+                        votes.append(vote(dont[i], P[0], P[1], P[2], "A", []))
+
+                def add(tag, pre, mid):
+                    hs.append({"n": n, "local": "n0", "t10": t10, "hold": "never", "ops": pre + votes + mid + tails[pi % 2],
+                               "tag": "hold-n%d-t%d-p%d-%s" % (n, t10, pi, tag)})
+                add("control", [], [])
+                for h in (1, 2):
+                    for r in (0, 1, 2):
+                        for st in (1, 3):
+                            for maj in (True, False):
+                                add("setlast-h%dr%ds%d%s" % (h, r, st, "m" if maj else "d"), [],
+                                    [{"op": "SetLast", "h": h, "r": r, "s": st, "maj": maj, "sc": False}])
+                # the box finished INIT of round 0, the ACCEPT ballots of round 0 arrive after the INIT ballots of round 1
+                init0 = [{"op": "SetLast", "h": 1, "r": 0, "s": 1, "maj": True, "sc": False}]
+                add("late-accept", init0, [vote(v, 1, 0, 3, "A", []) for v in names])
+                # ... or never arrive: an INIT ballot of the next height carries the ACCEPT voteproof of round 0
+                avp = {"name": "A|1|0|A|", "h": 1, "r": 0, "s": 3, "t10": t10, "votes": [[v, "A"] for v in names]}
+                add("carried-accept", init0, [vote(names[1], 2, 0, 1, "A", [], evp=avp)])
+    return hs
 
 
 def expel_grid(quick):
@@ -146,31 +260,46 @@ def run(ctx):
         lambda: ctx.tlc("Ballotbox", "Ballotbox_impl_count.cfg", allow_violation=True, count=False, timeout=900, workers=4),
         lambda: ctx.tlc("Ballotbox", "Ballotbox_impl_count2.cfg", allow_violation=True, count=False, timeout=900, workers=4),
         lambda: ctx.tlc_simulate("Ballotbox", "Ballotbox_sim.cfg", num=30 if quick else 500, depth=40),
+        # held records and the ticker: the transcription of countHoldeds/countHolded/count emits only for stage points
+        # the box is voting on (EmitNew); the caller's own filter alone does not - its counterexamples are schedules
+        lambda: ctx.tlc("Ballotbox", "Ballotbox_mc_c04_hold.cfg" if quick else "Ballotbox_mc_c04_hold_thorough.cfg", timeout=1800),
+        # (the height is closed through SetLastPoint; thorough: also through late ACCEPT ballots, a deeper search)
+        lambda: ctx.tlc("Ballotbox", "Ballotbox_impl_tick.cfg", allow_violation=True, count=False, timeout=900, workers=4),
+        lambda: ctx.tlc_simulate("Ballotbox", "Ballotbox_sim_hold.cfg", num=40 if quick else 600, depth=30),
     ]
     if not quick:
         jobs.append(lambda: ctx.tlc_simulate("Ballotbox", "Ballotbox_sim7.cfg", num=300, depth=30))
+        jobs.append(lambda: ctx.tlc("Ballotbox", "Ballotbox_impl_tick2.cfg", allow_violation=True, count=False, timeout=1800, workers=4))
     out = shared.parallel(jobs)
-    r, ri1, ri2, sim = out[0], out[1], out[2], out[3]
+    r, ri1, ri2, sim, rh, rt1, simh = out[:7]
+    rt2 = out[8] if not quick else None
     ctx.exhaustive = True
     ctx.extra["model_states"] = r.distinct
+    ctx.extra["model_states_hold"] = rh.distinct
     scripts = []
     cexs = []
-    for name, ri in (("Ballotbox_impl_count.cfg", ri1), ("Ballotbox_impl_count2.cfg", ri2)):
-        if ri.safety_violation:
+    for name, ri, n, reps in (("Ballotbox_impl_count.cfg", ri1, 7, 12), ("Ballotbox_impl_count2.cfg", ri2, 7, 12),
+                              ("Ballotbox_impl_tick.cfg", rt1, 3, 3), ("Ballotbox_impl_tick2.cfg", rt2, 3, 3)):
+        if ri is not None and ri.safety_violation:
             steps = shared.counterexample_steps(ctx, ri.out)
-            cexs.append({"config": name, "violated": ri.violated, "steps": steps, "first": len(scripts)})
+            cexs.append({"config": name, "violated": ri.violated, "steps": steps, "first": len(scripts), "reps": reps})
             # the order in which countWithExpels meets entries of equal size is a map's: repeat the script
-            for i in range(12):
-                scripts.append(shared.steps_to_history(steps, n=7, tag="cex-%s-%d" % (name, i)))
+            for i in range(reps):
+                scripts.append(steps_to_history(steps, n=n, tag="cex-%s-%d" % (name, i)))
     ctx.extra["impl_model_counterexamples"] = [{"config": c["config"], "violated": c["violated"], "steps": c["steps"]} for c in cexs]
     scripts.extend(expel_grid(quick))
+    scripts.extend(hold_grid(quick))
     for i, b in enumerate(sim[1]):
-        h = shared.steps_to_history(b, tag="sim%d" % i)
+        h = steps_to_history(b, tag="sim%d" % i)
+        if h["ops"]:
+            scripts.append(h)
+    for i, b in enumerate(simh[1]):
+        h = steps_to_history(b, n=3, tag="simh%d" % i, hold=("never", "zero")[i % 2])
         if h["ops"]:
             scripts.append(h)
     if not quick:
-        for i, b in enumerate(out[4][1]):
-            h = shared.steps_to_history(b, n=7, tag="sim7-%d" % i)
+        for i, b in enumerate(out[7][1]):
+            h = steps_to_history(b, n=7, tag="sim7-%d" % i)
             if h["ops"]:
                 scripts.append(h)
     sp = os.path.join(ctx.work, "scripts.ndjson")
@@ -190,14 +319,25 @@ def run(ctx):
     events, res = shared.validate(ctx, path, "all")
     # evidence: one case per history; non-trivial = the box emitted at least one voteproof
     hists = []
+    ticks = {"runs": 0, "emitting": 0, "voteproofs": 0, "concurrent_histories_with_ticker": 0}
     for e in events:
         if e["a"] == "Reset":
             hists.append({"reset": e, "ops": [], "vps": 0, "kinds": set()})
+            if e.get("ticker"):
+                ticks["concurrent_histories_with_ticker"] += 1
         else:
             hists[-1]["ops"].append(shared.brief(e))
             for v in e.get("vps", []):
                 hists[-1]["vps"] += 1
-                hists[-1]["kinds"].add(v["kind"] + ":" + v["res"] + (":fwd" if v["fwd"] else ""))
+                hists[-1]["kinds"].add(v["kind"] + ":" + v["res"] + (":fwd" if v["fwd"] else "") + (":tick" if e["a"] == "Tick" else ""))
+            if e["a"] == "Tick":
+                ticks["runs"] += 1
+                ticks["emitting"] += 1 if e.get("vps") else 0
+                ticks["voteproofs"] += len(e.get("vps", []))
+    ctx.extra["ticker"] = ticks
+    if ticks["runs"] > 20 and ticks["emitting"] == 0:
+        raise core.MachineryError("the ticker of the ballot box never emitted a held voteproof in %d runs: the Tick op does not "
+                                  "drive countHoldeds (machine too loaded?)" % ticks["runs"])
     kinds = {}
     for h in hists:
         ctx.case([h["reset"]["nodes"], h["reset"]["local"], h["reset"]["t10"], h["ops"]], nontrivial=h["vps"] > 0,
@@ -213,7 +353,7 @@ def run(ctx):
     model_only = []
     for c in cexs:
         lo = starts[c["first"]]
-        hi = starts[c["first"] + 12] if c["first"] + 12 < len(starts) else len(events)
+        hi = starts[c["first"] + c["reps"]] if c["first"] + c["reps"] < len(starts) else len(events)
         hit = any(cls.startswith(PREFIX) and lo < line <= hi for (cls, line, _) in res.mismatches())
         if not hit:
             model_only.append({"config": c["config"], "violated": c["violated"],
@@ -222,12 +362,18 @@ def run(ctx):
         ctx.extra["model_only_counterexamples"] = model_only
     ctx.rule = ("one case = one history on a fresh real Ballotbox (suffrage of 1..9 really keyed nodes, threshold, ordered calls with "
                 "their ballots, sequential and concurrent); every voteproof read from Voteproof() is checked; non-trivial = the box "
-                "emitted at least one voteproof; distinct by (suffrage, local, threshold, call sequence)")
+                "emitted at least one voteproof; distinct by (suffrage, local, threshold, call sequence); the op Tick is a run of "
+                "the box's own ticker with the holds expired")
     ctx.assumptions = [
         "suffrage known and the same for every height",
         "forwarded voteproofs (taken out of a ballot) are checked against the weaker reading: embedded in some ballot handed to "
         "Vote, valid for the suffrage, result = recount with the voteproof's own threshold",
         "soundness, not completeness: a voteproof the box could have emitted but did not is no violation",
+        "whether a record is held (voterecords.countAfter) is not observable: a run of the ticker is judged by what it emitted; "
+        "the hold duration is either zero or never expires except in a Tick (no wall-clock dependent hold)",
+        "a voteproof must be new with respect to a last point the box had during the call (before it, or after an earlier "
+        "voteproof of the same call; concurrent part: the last point before it, of any voteproof emitted meanwhile or set by a "
+        "thread); the stronger reading (the box would still accept a ballot for the point) is reported as a divergence only",
     ]
     if ctx.extra.get("unsettled_calls", 0) > 50:
         raise core.MachineryError("too many calls did not come to rest: %s" % ctx.extra["unsettled_calls"])
